@@ -8,8 +8,38 @@
 import OidcModel.Spec.C15
 import OidcModel.Generated.TokenExchangeTE
 import OidcModel.Proofs.C05
+import OidcModel.GoTac
 namespace C15
 open Go Gen Hand
+
+/-! ## the regenerated getters of `*tokenExchangeRequest` (Generated/TEGetters.lean): one characterisation each, by `rfl` - a getter
+    that answers from another field breaks HERE, and every theorem below sees the request only through these lemmas -/
+theorem getRequestedTokenType_eq (r : TEReq) : r.GetRequestedTokenType = r.requestedTokenType := rfl
+theorem getScopes_eq (r : TEReq) : r.GetScopes = r.scopes := rfl
+theorem getSubject_eq (r : TEReq) : r.GetSubject = r.subject := rfl
+theorem getAudience_eq (r : TEReq) : r.GetAudience = r.audience := rfl
+theorem getAuthTime_eq (r : TEReq) : r.GetAuthTime = r.authTime := rfl
+theorem getClientID_eq (r : TEReq) : r.GetClientID = r.clientID := rfl
+theorem getAMR_eq (r : TEReq) : r.GetAMR = [] := rfl
+theorem getExchangeSubject_eq (r : TEReq) : r.GetExchangeSubject = r.exchangeSubject := rfl
+theorem getExchangeActor_eq (r : TEReq) : r.GetExchangeActor = r.exchangeActor := rfl
+theorem anyGetRequestedTokenType_eq (a : TEAnyReq) : a.GetRequestedTokenType = a.req.requestedTokenType := rfl
+theorem anyGetScopes_eq (a : TEAnyReq) : a.GetScopes = a.req.scopes := rfl
+theorem anyGetSubject_eq (a : TEAnyReq) : a.GetSubject = a.req.subject := rfl
+theorem anyGetAudience_eq (a : TEAnyReq) : a.GetAudience = a.req.audience := rfl
+theorem anyGetAuthTime_eq (a : TEAnyReq) : a.GetAuthTime = a.req.authTime := rfl
+theorem anyGetClientID_eq (a : TEAnyReq) : a.GetClientID = a.req.clientID := rfl
+theorem anyGetAMR_eq (a : TEAnyReq) : a.GetAMR = [] := rfl
+
+/-- CHARACTERISATION of the regenerated `oidc.TokenType.IsSupported` over the regenerated table `AllTokenTypes`: the supported types
+    are EXACTLY the monitor's four (a table that gains or loses a type, or a test that is not membership, breaks here) -/
+theorem isSupported_iff (now : Int) (t : String) : GenTE.IsSupported now t = true ↔ t ∈ supported := by
+  have htab : Gen.allTokenTypes = supported := by decide
+  unfold GenTE.IsSupported
+  simp [Go.contains, htab]
+
+theorem isSupported_false_iff (now : Int) (t : String) : GenTE.IsSupported now t = false ↔ t ∉ supported := by
+  rw [← isSupported_iff now t]; cases GenTE.IsSupported now t <;> simp
 
 /-! ## hand-readable specification of token resolution -/
 
@@ -49,53 +79,22 @@ def resolve (p : TEProvider) (tok typ : String) (isActor : Bool) : String × Str
       | .error _ => ("", "", [], false)
     else ("", "", [], false)
 
-/-- closes the goals in which own resolution failed: both sides are the role's policy (or the refusal) -/
-local macro "te_tail" : tactic =>
-  `(tactic| (cases ‹Bool› <;> simp <;> split <;> (try simp_all) <;> (try (split <;> simp_all))))
-
-/-- the regenerated `GetTokenIDAndSubjectFromToken` IS that specification (all providers, storages, tokens, types, roles) -/
+/-- CHARACTERISATION of the regenerated `GetTokenIDAndSubjectFromToken` (with `getTokenIDAndClaims`): it IS that specification, for
+    all providers, storages, tokens, declared types and roles. The script does not depend on the shape of the Go text (order of the
+    switch cases, early returns, …): it splits whatever `if` / `match` structure was regenerated and closes every branch. -/
 theorem c15_resolution_spec (now : Int) (p : TEProvider) (tok typ : String) (isActor : Bool) :
     GenTE.GetTokenIDAndSubjectFromToken now p tok typ isActor = resolve p tok typ isActor := by
   unfold GenTE.GetTokenIDAndSubjectFromToken resolve ownResolution rolePolicy GenTE.getTokenIDAndClaims
-    Hand.teVerifyAccessToken Hand.teVerifyIDTokenHint
+    Hand.teVerifyAccessToken Hand.teVerifyIDTokenHint TEHint.strict
   simp only [Go.nil, HasNil.nilv, Go.notNil, Nilable.isNil, TERefreshReq.GetSubject, beq_iff_eq]
-  by_cases h1 : typ = Const.AccessTokenType
-  · simp only [h1, if_true]
-    cases hd : p.Crypto.Decrypt tok with
-    | ok plain =>
-      simp only []
-      by_cases hl : (Go.len (TE.split plain ":") != 2) = true
-      · simp only [hl, if_true]
-        te_tail
-      · simp [hl]
-    | error e =>
-      simp only []
-      cases hv : p.AccessTokenVerifier.verify tok with
-      | ok c =>
-        simp only []
-        cases hs : c.set <;> simp
-      | error e2 =>
-        simp only []
-        te_tail
-  · by_cases h2 : typ = Const.RefreshTokenType
-    · have h1' : ¬ (Const.RefreshTokenType = Const.AccessTokenType) := by decide
-      subst h2
-      simp only [h1', if_false, if_true]
-      cases hr' : p.Storage.TokenRequestByRefreshToken tok <;> simp
-      te_tail
-    · by_cases h3 : typ = Const.IDTokenType
-      · have h1' : ¬ (Const.IDTokenType = Const.AccessTokenType) := by decide
-        have h2' : ¬ (Const.IDTokenType = Const.RefreshTokenType) := by decide
-        subst h3
-        simp only [h1', h2', if_false, if_true]
-        cases hh : p.IDTokenHintVerifier.verify tok with
-        | ok hint =>
-          cases hint with
-          | valid c => simp [TEHint.strict]
-          | expired c => simp only [TEHint.strict]; te_tail
-        | error e => simp only [TEHint.strict]; te_tail
-      · simp only [h1, h2, h3, if_false]
-        te_tail
+  -- the three type constants are pairwise different (needed when the cases of the switch come in another order than in `resolve`)
+  have d1 : Const.AccessTokenType ≠ Const.RefreshTokenType := by decide
+  have d2 : Const.AccessTokenType ≠ Const.IDTokenType := by decide
+  have d3 : Const.RefreshTokenType ≠ Const.IDTokenType := by decide
+  have d4 := d1.symm
+  have d5 := d2.symm
+  have d6 := d3.symm
+  go_leaf
 
 /-- ROLE DISPATCH: a subject token is only ever resolved through the provider's own resolution or the storage's SUBJECT
     policy - replacing the actor policy by anything at all changes nothing - and an actor token only through the ACTOR policy;
@@ -193,52 +192,70 @@ theorem c15_create_request_sound {now : Int} {rq : TEIn} {c : OPClient} {p : TEP
               exact ⟨sid, ssub, scl, aid, asub, acl, r1, rfl, by simp [ha], by simpa [builtReq] using hv, hc⟩
   · simp [hs] at h
 
+/-- the parameter checks both routers make (each has its own copy, in its own order; every one fails with `invalid_request`) -/
+def paramsOK (rq : TEIn) : Prop :=
+  rq.SubjectToken ≠ "" ∧ rq.SubjectTokenType ≠ "" ∧ rq.SubjectTokenType ∈ supported ∧
+  (rq.RequestedTokenType = "" ∨ rq.RequestedTokenType ∈ supported) ∧ (rq.ActorTokenType = "" ∨ rq.ActorTokenType ∈ supported)
+instance (rq : TEIn) : Decidable (paramsOK rq) := by unfold paramsOK; infer_instance
+
+/-- hand-readable specification of the Provider router's `ValidateTokenExchangeRequest`: nothing happens without the two required
+    parameters; then the client is authenticated and must be registered for the grant; then the remaining parameter checks; then
+    `CreateTokenExchangeRequest` -/
+def validateSpec (now : Int) (rq : TEIn) (id sec : String) (p : TEProvider) : Go.R (TEReq × OPClient) :=
+  if rq.SubjectToken = "" ∨ rq.SubjectTokenType = "" then .error "ErrInvalidRequest"
+  else match Hand.teAuthorizeClient now id sec p with
+    | .error e => .error e
+    | .ok c =>
+      if ValidateGrantType now c Const.GrantTypeTokenExchange = false then .error "ErrUnauthorizedClient"
+      else if ¬ paramsOK rq then .error "ErrInvalidRequest"
+      else match GenTE.CreateTokenExchangeRequest now rq c p with
+        | .error e => .error e
+        | .ok r => .ok (r, c)
+
+/-- CHARACTERISATION of the regenerated `ValidateTokenExchangeRequest` -/
+theorem validateTokenExchangeRequest_eq (now : Int) (rq : TEIn) (id sec : String) (p : TEProvider) :
+    GenTE.ValidateTokenExchangeRequest now rq id sec p = validateSpec now rq id sec p := by
+  unfold GenTE.ValidateTokenExchangeRequest validateSpec paramsOK
+  simp only [beq_iff_eq, bne_iff_ne, Bool.and_eq_true, Bool.not_eq_true', isSupported_false_iff]
+  go_leaf
+
 /-- the token endpoint (Provider router) lets a token exchange through only for a secret-authenticated client registered for
     the grant, with supported declared types, and then only as `c15_create_request_sound` says.
     PARTIAL with exactly one exclusion (finding F-C15b, witness below): for the declared type id_token "the provider's own
     resolution" is `VerifyIDTokenHint`, and that verifier also accepts the provider's own JWT ACCESS tokens - so "resolved as an
     id_token" does not establish "is an ID token" (nor, therefore, that a revoked access token is refused). For the declared types
-    access_token / refresh_token / jwt and for third-party tokens the statement is the full one. -/
+    access_token / refresh_token / jwt and for third-party tokens the statement is the full one.
+    Second exclusion (finding F-C15c, witness `c15_actor_without_type_witness`): the conclusion can only say
+    `ActorTokenType = "" ∨ supported` - NOT `ActorToken = "" ∨ supported`: an actor token without a declared type is not refused
+    by the framework itself but handed to the optional verifier storage with the empty type. -/
 theorem c15_validate_sound_partial {now : Int} {rq : TEIn} {id sec : String} {p : TEProvider} {r : TEReq} {c : OPClient}
     (h : GenTE.ValidateTokenExchangeRequest now rq id sec p = .ok (r, c)) :
     p.base.store.AuthorizeClientIDSecret id sec = .ok () ∧ p.base.store.GetClientByClientID id = .ok c ∧
     Const.GrantTypeTokenExchange ∈ c.grants ∧
-    rq.SubjectToken ≠ "" ∧ rq.SubjectTokenType.IsSupported = true ∧ (rq.ActorTokenType = "" ∨ rq.ActorTokenType.IsSupported = true) ∧
-    (rq.RequestedTokenType = "" ∨ rq.RequestedTokenType.IsSupported = true) ∧
+    rq.SubjectToken ≠ "" ∧ rq.SubjectTokenType ∈ supported ∧ (rq.ActorTokenType = "" ∨ rq.ActorTokenType ∈ supported) ∧
+    (rq.RequestedTokenType = "" ∨ rq.RequestedTokenType ∈ supported) ∧
     GenTE.CreateTokenExchangeRequest now rq c p = .ok r := by
-  unfold GenTE.ValidateTokenExchangeRequest Hand.teAuthorizeClient at h
-  by_cases h1 : (rq.SubjectToken == "") = true
+  rw [validateTokenExchangeRequest_eq] at h
+  unfold validateSpec Hand.teAuthorizeClient at h
+  by_cases h1 : rq.SubjectToken = "" ∨ rq.SubjectTokenType = ""
   · simp [h1] at h
-  by_cases h2 : (rq.SubjectTokenType == "") = true
-  · simp [h1, h2] at h
-  simp only [h1, h2, Bool.false_eq_true, if_false] at h
+  simp only [h1, if_false] at h
   cases hc : AuthorizeTokenExchangeClient now id sec p.base with
   | error e => simp [hc] at h
   | ok c' =>
     simp only [hc] at h
-    by_cases h3 : (!ValidateGrantType now c' Const.GrantTypeTokenExchange) = true
+    by_cases h3 : ValidateGrantType now c' Const.GrantTypeTokenExchange = false
     · simp [h3] at h
-    by_cases h4 : (rq.RequestedTokenType != "" && !rq.RequestedTokenType.IsSupported) = true
-    · simp [h3, h4] at h
-    by_cases h5 : (!rq.SubjectTokenType.IsSupported) = true
-    · simp [h3, h4, h5] at h
-    by_cases h6 : (rq.ActorTokenType != "" && !rq.ActorTokenType.IsSupported) = true
-    · simp [h3, h4, h5, h6] at h
-    simp only [h3, h4, h5, h6, Bool.false_eq_true, if_false] at h
-    cases hr : GenTE.CreateTokenExchangeRequest now rq c' p with
-    | error e => simp [hr] at h
-    | ok r' =>
-      simp only [hr] at h
-      simp at h
-      obtain ⟨rfl, rfl⟩ := h
-      obtain ⟨a1, a2⟩ := C05.authorizeTokenExchangeClient_ok hc
-      refine ⟨a1, a2, C04.validateGrantType_iff.1 (by simpa using h3), by simpa using h1, by simpa using h5, ?_, ?_, hr⟩
-      · by_cases ht : rq.ActorTokenType = ""
-        · left; exact ht
-        · right; simp [ht] at h6; exact h6
-      · by_cases ht : rq.RequestedTokenType = ""
-        · left; exact ht
-        · right; simp [ht] at h4; exact h4
+    by_cases hp : paramsOK rq
+    · simp only [h3, hp, not_true_eq_false, if_false] at h
+      cases hr : GenTE.CreateTokenExchangeRequest now rq c' p with
+      | error e => simp [hr] at h
+      | ok r' =>
+        simp [hr] at h
+        obtain ⟨rfl, rfl⟩ := h
+        obtain ⟨a1, a2⟩ := C05.authorizeTokenExchangeClient_ok hc
+        exact ⟨a1, a2, C04.validateGrantType_iff.1 (by simpa using h3), hp.1, hp.2.2.1, hp.2.2.2.2, hp.2.2.2.1, hr⟩
+    · simp [h3, hp] at h
 
 /-! ## the refresh decision and the response -/
 
@@ -248,65 +265,430 @@ theorem c15_refresh_decision (now : Int) (r : TEReq) (c : OPClient) :
     GenTE.needsRefreshToken now r.asTokenRequest c = (r.requestedTokenType == Const.RefreshTokenType) := by
   have hA : "AuthRequest" ∉ GenTE.tokenExchangeRequest_satisfies := by decide
   have hT : "TokenExchangeRequest" ∈ GenTE.tokenExchangeRequest_satisfies := by decide
-  simp [GenTE.needsRefreshToken, TEReq.asTokenRequest, hA, hT, TEAnyReq.GetRequestedTokenType]
+  unfold GenTE.needsRefreshToken
+  simp only [TEReq.asTokenRequest, hA, hT, anyGetRequestedTokenType_eq, List.contains_eq_mem, decide_false, decide_true]
+  go_leaf
 
 /-- the documented contract of `Storage.CreateAccessAndRefreshTokens`: on success it hands out a refresh token -/
 def StorageContract (s : TEStore) : Prop :=
   ∀ r cur id rt exp, s.CreateAccessAndRefreshTokens r cur = .ok (id, rt, exp) → rt ≠ ""
 
-theorem mintAccess_ne_empty (tt : Nat) (id sub : String) : TE.mintAccess tt id sub ≠ "" := by
-  unfold TE.mintAccess
-  intro h
-  have := congrArg String.length h
-  split at this <;> simp at this <;> omega
+/-- what AES sealing (`Crypto.Encrypt`) and go-jose signing are assumed to do: a successful call never yields the empty string -/
+def MintContract (p : TEProvider) : Prop :=
+  (∀ s t, p.Crypto.Encrypt s = .ok t → t ≠ "") ∧ (∀ k c t, p.Storage.SigningKey = .ok k → k.signAT c = .ok t → t ≠ "") ∧
+  (∀ k c t, p.Storage.SigningKey = .ok k → k.signID c = .ok t → t ≠ "")
 
-/-- the response declares exactly what it contains, for ALL client registrations and every storage honouring the contract:
-    the issued type is the (issuable) requested type, the token member is never empty, and a refresh token is contained
-    IFF `issued_token_type` is the refresh type -/
+/-! ### the access token itself: regenerated `CreateAccessToken` / `CreateJWT` / `CreateBearerToken` -/
+
+theorem asTokenRequest_flags (r : TEReq) :
+    r.asTokenRequest.is_TokenExchangeRequest = true ∧ r.asTokenRequest.is_TokenActorRequest = false ∧ r.asTokenRequest.req = r := by
+  have hT : "TokenExchangeRequest" ∈ GenTE.tokenExchangeRequest_satisfies := by decide
+  have hA : "TokenActorRequest" ∉ GenTE.tokenExchangeRequest_satisfies := by decide
+  simp [TEReq.asTokenRequest, hT, hA]
+
+/-- the claims `CreateJWT` signs for a token-exchange request `r` (the request AFTER the storage policy's rewriting): the registered
+    claims of the regenerated `oidc.NewAccessTokenClaims` for the request's subject and audience, and the private claims `pc` -/
+def exchangeJWTClaims (now : Int) (iss : String) (r : TEReq) (exp : Int) (id : String) (c : OPClient) (st : TEStore) (pc : TEClaims) : TEJWTClaims :=
+  { Hand.teNewAccessTokenClaims now iss r.subject r.audience exp id c.id (st.ClientClockSkew c) with Claims := pc }
+
+/-- hand-readable specification of `CreateJWT` for a token-exchange request against an exchange storage -/
+def exchangeJWTSpec (now : Int) (iss : String) (r : TEReq) (exp : Int) (id : String) (c : OPClient) (st : TEStore) : Go.R String :=
+  match st.GetPrivateClaimsFromTokenExchangeRequest r.asTokenRequest with
+  | .error e => .error e
+  | .ok pc =>
+    match st.SigningKey with
+    | .error e => .error e
+    | .ok key => if key.signerOK then key.signAT (exchangeJWTClaims now iss r exp id c st pc) else .error "ErrSignerCreationFailed"
+
+/-- CHARACTERISATION of the regenerated `CreateJWT` on exchange requests (the only place where its shape matters; the script
+    splits whatever `if` / `match` structure the source currently has) -/
+theorem createJWT_exchange_eq (now : Int) (iss : String) (r : TEReq) (exp : Int) (id : String) (c : OPClient) (st : TEStore)
+    (hte : st.is_TokenExchangeStorage = true) :
+    GenTE.CreateJWT now iss r.asTokenRequest exp id c st = exchangeJWTSpec now iss r exp id c st := by
+  obtain ⟨f1, f2, f3⟩ := asTokenRequest_flags r
+  unfold GenTE.CreateJWT exchangeJWTSpec exchangeJWTClaims Hand.teSignerFromKey Hand.teSignAT
+  simp only [Go.notNil, Nilable.isNil, f1, f2, f3, hte, anyGetSubject_eq, anyGetAudience_eq, OPClient.GetID]
+  go_leaf
+
+/-- PRIVATE-CLAIMS SOURCE of a JWT access token issued by a token exchange: whenever the storage implements `TokenExchangeStorage`
+    (which `CreateTokenExchangeRequest` has established, `c15_create_request_sound`), the claims are EXACTLY what
+    `GetPrivateClaimsFromTokenExchangeRequest` decided for this request - for every storage, whatever other optional capabilities
+    (`CanGetPrivateClaimsFromRequest`) it has, every client, every restriction function, every signing key -/
+theorem c15_exchange_jwt_claims_source {now : Int} {iss : String} {r : TEReq} {exp : Int} {id : String} {c : OPClient} {st : TEStore} {tok : String}
+    (hte : st.is_TokenExchangeStorage = true) (h : GenTE.CreateJWT now iss r.asTokenRequest exp id c st = .ok tok) :
+    ∃ pc key, st.GetPrivateClaimsFromTokenExchangeRequest r.asTokenRequest = .ok pc ∧ st.SigningKey = .ok key ∧ key.signerOK = true ∧
+      key.signAT (exchangeJWTClaims now iss r exp id c st pc) = .ok tok := by
+  rw [createJWT_exchange_eq _ _ _ _ _ _ _ hte] at h
+  unfold exchangeJWTSpec at h
+  cases hp : st.GetPrivateClaimsFromTokenExchangeRequest r.asTokenRequest with
+  | error e => simp [hp] at h
+  | ok pc =>
+    simp only [hp] at h
+    cases hk : st.SigningKey with
+    | error e => simp [hk] at h
+    | ok key =>
+      simp only [hk] at h
+      by_cases hs : key.signerOK = true
+      · simp only [hs, if_true] at h
+        exact ⟨pc, key, rfl, rfl, hs, h⟩
+      · simp [hs] at h
+
+/-- ... and nothing else: switching the optional `CanGetPrivateClaimsFromRequest` capability on or off, or replacing it and the base
+    hook `GetPrivateClaimsFromScopes` by anything at all, does not change the token issued for an exchange request -/
+theorem c15_exchange_jwt_ignores_other_hooks (now : Int) (iss : String) (r : TEReq) (exp : Int) (id : String) (c : OPClient) (st : TEStore)
+    (hte : st.is_TokenExchangeStorage = true) (b : Bool) (f : TEAnyReq → List String → Go.R TEClaims) (g : String → String → List String → Go.R TEClaims) :
+    GenTE.CreateJWT now iss r.asTokenRequest exp id c { st with is_CanGetPrivateClaimsFromRequest := b, GetPrivateClaimsFromRequest := f, GetPrivateClaimsFromScopes := g }
+      = GenTE.CreateJWT now iss r.asTokenRequest exp id c st := by
+  rw [createJWT_exchange_eq _ _ _ _ _ _ _ hte, createJWT_exchange_eq _ _ _ _ _ _ _ (by exact hte)]
+  rfl
+
+/-- hand-readable specification of `createTokens` for an exchange request -/
+def createTokensSpec (r : TEReq) (st : TEStore) (cur : String) : Go.R (String × String × Int) :=
+  if r.requestedTokenType = Const.RefreshTokenType then st.CreateAccessAndRefreshTokens r.asTokenRequest cur
+  else match st.CreateAccessToken r.asTokenRequest with
+    | .error e => .error e
+    | .ok (id, exp) => .ok (id, "", exp)
+
+/-- CHARACTERISATION of the regenerated `createTokens` on exchange requests -/
+theorem createTokens_exchange_eq (now : Int) (r : TEReq) (st : TEStore) (cur : String) (c : OPClient) :
+    GenTE.createTokens now r.asTokenRequest st cur c = createTokensSpec r st cur := by
+  unfold GenTE.createTokens createTokensSpec
+  simp only [c15_refresh_decision, beq_iff_eq]
+  go_leaf
+
+open TEScoped in
+theorem te_hadd (a b : String) : (a + b : String) = a ++ b := rfl
+
+/-- hand-readable specification of `CreateAccessToken` for an exchange request: the storage creates the token(s), the validity is
+    counted from the expiry the storage named plus the client's clock skew, and the token string is the signed JWT claims
+    (`CreateJWT`) for a client with JWT access tokens, the sealed `id:subject` (`CreateBearerToken`) for every other client -/
+def createAccessTokenSpec (now : Int) (r : TEReq) (tt : Nat) (p : TEProvider) (c : OPClient) (cur : String) : Go.R (String × String × Int) :=
+  match createTokensSpec r p.Storage cur with
+  | .error e => .error e
+  | .ok (id, rt, exp) =>
+    if tt = TEConst.AccessTokenTypeJWT then
+      match GenTE.CreateJWT now (IssuerFromContext now) r.asTokenRequest exp id c p.Storage with
+      | .error e => .error e
+      | .ok t => .ok (t, rt, Go.tSub (Go.tAdd exp (p.Storage.ClientClockSkew c)) now)
+    else
+      match p.Crypto.Encrypt (id ++ ":" ++ r.subject) with
+      | .error e => .error e
+      | .ok t => .ok (t, rt, Go.tSub (Go.tAdd exp (p.Storage.ClientClockSkew c)) now)
+
+/-- CHARACTERISATION of the regenerated `CreateAccessToken` (with `CreateBearerToken`) on exchange requests -/
+theorem createAccessToken_exchange_eq (now : Int) (r : TEReq) (tt : Nat) (p : TEProvider) (c : OPClient) (cur : String) :
+    GenTE.CreateAccessToken now r.asTokenRequest tt p c cur = createAccessTokenSpec now r tt p c cur := by
+  unfold GenTE.CreateAccessToken createAccessTokenSpec GenTE.CreateBearerToken
+  simp only [createTokens_exchange_eq, Go.notNil, Nilable.isNil, anyGetSubject_eq, (asTokenRequest_flags r).2.2, te_hadd, beq_iff_eq]
+  go_leaf
+
+/-- what `CreateAccessToken` hands out for an exchange request: the storage created the token(s) through the regenerated
+    `createTokens`; a JWT client gets the signed `exchangeJWTClaims` with the exchange hook's private claims, any other client the
+    sealed `id:subject` -/
+theorem c15_access_token_of_exchange {now : Int} {r : TEReq} {c : OPClient} {p : TEProvider} {tt : Nat} {tok rt : String} {v : Int}
+    (hte : p.Storage.is_TokenExchangeStorage = true)
+    (h : GenTE.CreateAccessToken now r.asTokenRequest tt p c "" = .ok (tok, rt, v)) :
+    ∃ id exp, GenTE.createTokens now r.asTokenRequest p.Storage "" c = .ok (id, rt, exp) ∧
+      (if tt = TEConst.AccessTokenTypeJWT then
+        ∃ pc key, p.Storage.GetPrivateClaimsFromTokenExchangeRequest r.asTokenRequest = .ok pc ∧ p.Storage.SigningKey = .ok key ∧
+          key.signAT (exchangeJWTClaims now (IssuerFromContext now) r exp id c p.Storage pc) = .ok tok
+       else p.Crypto.Encrypt (id ++ ":" ++ r.subject) = .ok tok) := by
+  rw [createAccessToken_exchange_eq] at h
+  unfold createAccessTokenSpec at h
+  simp only [createTokens_exchange_eq]
+  cases hc : createTokensSpec r p.Storage "" with
+  | error e => simp [hc] at h
+  | ok t =>
+    obtain ⟨id, rt', exp⟩ := t
+    simp only [hc] at h
+    by_cases hj : tt = TEConst.AccessTokenTypeJWT
+    · simp only [hj, if_true] at h
+      cases hw : GenTE.CreateJWT now (IssuerFromContext now) r.asTokenRequest exp id c p.Storage with
+      | error e => simp [hw] at h
+      | ok a =>
+        simp [hw] at h
+        obtain ⟨rfl, rfl, _⟩ := h
+        obtain ⟨pc, key, h1, h2, _, h4⟩ := c15_exchange_jwt_claims_source hte hw
+        exact ⟨id, exp, rfl, by simp only [hj, if_true]; exact ⟨pc, key, h1, h2, h4⟩⟩
+    · simp only [hj, if_false] at h
+      cases he : p.Crypto.Encrypt (id ++ ":" ++ r.subject) with
+      | error e => simp [he] at h
+      | ok a =>
+        simp [he] at h
+        obtain ⟨rfl, rfl, _⟩ := h
+        exact ⟨id, exp, rfl, by simp only [hj, if_false]; exact he⟩
+
+/-! ### the ID token: regenerated `CreateIDToken` -/
+
+/-- the claims `CreateIDToken` signs for a token-exchange request `r` (no access token and no code are hashed): the regenerated
+    `oidc.NewIDTokenClaims` for the request, the userinfo `ui` a storage hook filled (`SetUserInfo` takes the subject from it; an
+    empty one falls back to the request's) -/
+def exchangeIDClaims (now : Int) (iss : String) (r : TEReq) (lifetime : Int) (c : OPClient) (st : TEStore) (ui : TEUserInfo) : TEIDTokenClaims :=
+  let cl := (Hand.teNewIDTokenClaims now iss r.subject r.audience (Go.tAdd (Go.tAdd now (st.ClientClockSkew c)) lifetime) r.authTime "" "" []
+    r.clientID (st.ClientClockSkew c)).SetUserInfo ui
+  if cl.Subject == "" then { cl with Subject := r.subject } else cl
+
+/-- hand-readable specification of `CreateIDToken` for a token-exchange request (nothing to hash) against an exchange storage -/
+def exchangeIDSpec (now : Int) (iss : String) (r : TEReq) (lifetime : Int) (c : OPClient) (st : TEStore) : Go.R String :=
+  match st.SigningKey with
+  | .error e => .error e
+  | .ok key =>
+    match st.SetUserinfoFromTokenExchangeRequest {} r.asTokenRequest with
+    | .error e => .error e
+    | .ok ui => if key.signerOK then key.signID (exchangeIDClaims now iss r lifetime c st ui) else .error "ErrSignerCreationFailed"
+
+/-- CHARACTERISATION of the regenerated `CreateIDToken` on exchange requests -/
+theorem createIDToken_exchange_eq (now : Int) (iss : String) (r : TEReq) (lifetime : Int) (c : OPClient) (st : TEStore)
+    (hte : st.is_TokenExchangeStorage = true) :
+    GenTE.CreateIDToken now iss r.asTokenRequest lifetime "" "" st c = exchangeIDSpec now iss r lifetime c st := by
+  obtain ⟨f1, f2, f3⟩ := asTokenRequest_flags r
+  have fA : r.asTokenRequest.is_AuthRequest = false := by
+    have hA : "AuthRequest" ∉ GenTE.tokenExchangeRequest_satisfies := by decide
+    simp [TEReq.asTokenRequest, hA]
+  unfold GenTE.CreateIDToken exchangeIDSpec exchangeIDClaims Hand.teSignerFromKey Hand.teSignID
+  simp only [f1, f2, f3, fA, hte, anyGetSubject_eq, anyGetAudience_eq, anyGetAuthTime_eq, anyGetAMR_eq, anyGetClientID_eq]
+  go_leaf
+
+/-- USERINFO SOURCE of an ID token issued by a token exchange: with an exchange storage the userinfo - and with it the `act` member
+    the policy decides - is EXACTLY what `SetUserinfoFromTokenExchangeRequest` filled in for this request, whatever other optional
+    capabilities (`CanSetUserinfoFromRequest`) the storage has and whatever the client's scope restriction is -/
+theorem c15_exchange_id_token_userinfo_source {now : Int} {iss : String} {r : TEReq} {lifetime : Int} {c : OPClient} {st : TEStore} {tok : String}
+    (hte : st.is_TokenExchangeStorage = true) (h : GenTE.CreateIDToken now iss r.asTokenRequest lifetime "" "" st c = .ok tok) :
+    ∃ ui key, st.SetUserinfoFromTokenExchangeRequest {} r.asTokenRequest = .ok ui ∧ st.SigningKey = .ok key ∧ key.signerOK = true ∧
+      key.signID (exchangeIDClaims now iss r lifetime c st ui) = .ok tok := by
+  rw [createIDToken_exchange_eq _ _ _ _ _ _ hte] at h
+  unfold exchangeIDSpec at h
+  cases hk : st.SigningKey with
+  | error e => simp [hk] at h
+  | ok key =>
+    simp only [hk] at h
+    cases hu : st.SetUserinfoFromTokenExchangeRequest {} r.asTokenRequest with
+    | error e => simp [hu] at h
+    | ok ui =>
+      simp only [hu] at h
+      by_cases hs : key.signerOK = true
+      · simp only [hs, if_true] at h
+        exact ⟨ui, key, rfl, rfl, hs, h⟩
+      · simp [hs] at h
+
+/-- ... and nothing else: the optional `CanSetUserinfoFromRequest` capability and the base hook `SetUserinfoFromScopes` can be
+    switched / replaced at will without changing the ID token of an exchange -/
+theorem c15_exchange_id_token_ignores_other_hooks (now : Int) (iss : String) (r : TEReq) (lifetime : Int) (c : OPClient) (st : TEStore)
+    (hte : st.is_TokenExchangeStorage = true) (b : Bool) (f : TEUserInfo → TEAnyReq → List String → Go.R TEUserInfo)
+    (g : TEUserInfo → String → String → List String → Go.R TEUserInfo) :
+    GenTE.CreateIDToken now iss r.asTokenRequest lifetime "" "" { st with is_CanSetUserinfoFromRequest := b, SetUserinfoFromRequest := f, SetUserinfoFromScopes := g } c
+      = GenTE.CreateIDToken now iss r.asTokenRequest lifetime "" "" st c := by
+  rw [createIDToken_exchange_eq _ _ _ _ _ _ hte, createIDToken_exchange_eq _ _ _ _ _ _ (by exact hte)]
+  rfl
+
+/-- hand-readable specification of `CreateTokenExchangeResponse` -/
+def responseSpec (now : Int) (r : TEReq) (c : OPClient) (p : TEProvider) : Go.R ExchangeResp :=
+  if r.requestedTokenType = Const.AccessTokenType ∨ r.requestedTokenType = Const.RefreshTokenType then
+    match GenTE.CreateAccessToken now r.asTokenRequest (p.Storage.ClientAccessTokenType c) p c "" with
+    | .error e => .error e
+    | .ok (tok, rt, v) => .ok (ExchangeResp.mk tok r.requestedTokenType Const.BearerToken (Go.dSeconds v) rt r.scopes)
+  else if r.requestedTokenType = Const.IDTokenType then
+    match GenTE.CreateIDToken now (IssuerFromContext now) r.asTokenRequest c.IDTokenLifetime "" "" p.Storage c with
+    | .error e => .error e
+    | .ok tok => .ok (ExchangeResp.mk tok r.requestedTokenType "N_A" (Go.dSeconds 0) "" r.scopes)
+  else .error "ErrInvalidRequest"
+
+/-- CHARACTERISATION of the regenerated `CreateTokenExchangeResponse` -/
+theorem createTokenExchangeResponse_eq (now : Int) (r : TEReq) (c : OPClient) (p : TEProvider) :
+    GenTE.CreateTokenExchangeResponse now r c p = responseSpec now r c p := by
+  unfold GenTE.CreateTokenExchangeResponse responseSpec Hand.texAsTokenRequest Hand.texAsIDTokenRequest
+  simp only [getRequestedTokenType_eq, getScopes_eq, Bool.or_eq_true, beq_iff_eq]
+  go_leaf
+
+/-- the response declares exactly what it contains, for ALL client registrations (grants, access token type, clock skew, scope
+    restriction) and every storage honouring the contract: the issued type is the (issuable) requested type, the token member is
+    never empty, and a refresh token is contained IFF `issued_token_type` is the refresh type -/
 theorem c15_response_declares_contents {now : Int} {r : TEReq} {c : OPClient} {p : TEProvider} {resp : ExchangeResp}
-    (hs : StorageContract p.Storage) (h : GenTE.CreateTokenExchangeResponse now r c p = .ok resp) :
+    (hs : StorageContract p.Storage) (hm : MintContract p) (hte : p.Storage.is_TokenExchangeStorage = true)
+    (h : GenTE.CreateTokenExchangeResponse now r c p = .ok resp) :
     resp.IssuedTokenType = r.requestedTokenType ∧
     (r.requestedTokenType = Const.AccessTokenType ∨ r.requestedTokenType = Const.RefreshTokenType ∨ r.requestedTokenType = Const.IDTokenType) ∧
     resp.AccessToken ≠ "" ∧ (resp.RefreshToken ≠ "" ↔ resp.IssuedTokenType = Const.RefreshTokenType) ∧ resp.Scopes = r.scopes := by
-  unfold GenTE.CreateTokenExchangeResponse Hand.texCreateAccessToken Hand.texCreateIDToken GenTE.createTokens at h
-  simp only [TEReq.GetRequestedTokenType, TEReq.GetScopes, c15_refresh_decision] at h
-  by_cases h1 : (r.requestedTokenType == Const.AccessTokenType || r.requestedTokenType == Const.RefreshTokenType) = true
+  rw [createTokenExchangeResponse_eq] at h
+  unfold responseSpec at h
+  by_cases h1 : r.requestedTokenType = Const.AccessTokenType ∨ r.requestedTokenType = Const.RefreshTokenType
   · simp only [h1, if_true] at h
-    by_cases hr : r.requestedTokenType = Const.RefreshTokenType
-    · simp only [hr, beq_self_eq_true, if_true] at h
-      cases hc : p.Storage.CreateAccessAndRefreshTokens r.asTokenRequest "" with
-      | error e => simp [hc] at h
-      | ok v =>
-        obtain ⟨id, rt, exp⟩ := v
-        simp [hc] at h
-        subst h
-        exact ⟨hr.symm, Or.inr (Or.inl hr), mintAccess_ne_empty _ _ _, by simp [hs _ _ _ _ _ hc], rfl⟩
-    · have hr' : (r.requestedTokenType == Const.RefreshTokenType) = false := by simpa using hr
-      simp only [hr', Bool.false_eq_true, if_false] at h
-      cases hc : p.Storage.CreateAccessToken r.asTokenRequest with
-      | error e => simp [hc] at h
-      | ok v =>
-        obtain ⟨id, exp⟩ := v
-        simp [hc] at h
-        subst h
-        simp only [Bool.or_eq_true, beq_iff_eq] at h1
-        refine ⟨rfl, by rcases h1 with h1 | h1 <;> simp [h1], mintAccess_ne_empty _ _ _, by simp [hr], rfl⟩
-  · simp only [h1, Bool.false_eq_true, if_false] at h
-    by_cases h2 : (r.requestedTokenType == Const.IDTokenType) = true
-    · simp only [h2, if_true] at h
-      simp at h
+    cases ha : GenTE.CreateAccessToken now r.asTokenRequest (p.Storage.ClientAccessTokenType c) p c "" with
+    | error e => simp [ha] at h
+    | ok t =>
+      obtain ⟨tok, rt, v⟩ := t
+      simp [ha] at h
       subst h
-      simp only [Bool.or_eq_true, beq_iff_eq, not_or] at h1
-      refine ⟨rfl, by right; right; simpa using h2, by simp, ?_, rfl⟩
-      simp [h1.2]
+      obtain ⟨id, exp, hct, htok⟩ := c15_access_token_of_exchange hte ha
+      have hne : tok ≠ "" := by
+        split at htok
+        · obtain ⟨pc, key, _, hk, hsg⟩ := htok
+          exact hm.2.1 _ _ _ hk hsg
+        · exact hm.1 _ _ htok
+      rw [createTokens_exchange_eq] at hct
+      unfold createTokensSpec at hct
+      by_cases hr : r.requestedTokenType = Const.RefreshTokenType
+      · simp only [hr, if_true] at hct
+        exact ⟨rfl, Or.inr (Or.inl hr), hne, by simp [hr, hs _ _ _ _ _ hct], rfl⟩
+      · simp only [hr, if_false] at hct
+        cases hc : p.Storage.CreateAccessToken r.asTokenRequest with
+        | error e => simp [hc] at hct
+        | ok t2 =>
+          obtain ⟨id2, exp2⟩ := t2
+          simp [hc] at hct
+          obtain ⟨_, hrt, _⟩ := hct
+          refine ⟨rfl, by rcases h1 with h1 | h1 <;> simp [h1], hne, by simp [hr, ← hrt], rfl⟩
+  · simp only [h1, if_false] at h
+    by_cases h2 : r.requestedTokenType = Const.IDTokenType
+    · simp only [h2, if_true] at h
+      cases hi : GenTE.CreateIDToken now (IssuerFromContext now) r.asTokenRequest c.IDTokenLifetime "" "" p.Storage c with
+      | error e => simp [hi] at h
+      | ok tok =>
+        simp [hi] at h
+        subst h
+        obtain ⟨ui, key, _, hk, _, hsg⟩ := c15_exchange_id_token_userinfo_source hte hi
+        refine ⟨h2.symm, by right; right; exact h2, hm.2.2 _ _ _ hk hsg, ?_, rfl⟩
+        have : Const.IDTokenType ≠ Const.RefreshTokenType := by decide
+        simp [this]
     · simp [h2] at h
+
+/-- WHAT THE ISSUED ID TOKEN CARRIES (requested type id_token): the signature over `exchangeIDClaims` - the (policy-rewritten)
+    request's subject / audience / client and the userinfo, incl. the actor, that the exchange hook decided for this request -/
+theorem c15_issued_id_token_carries_policy_decision {now : Int} {r : TEReq} {c : OPClient} {p : TEProvider} {resp : ExchangeResp}
+    (hte : p.Storage.is_TokenExchangeStorage = true) (hreq : r.requestedTokenType = Const.IDTokenType)
+    (h : GenTE.CreateTokenExchangeResponse now r c p = .ok resp) :
+    resp.RefreshToken = "" ∧
+    ∃ ui key, p.Storage.SetUserinfoFromTokenExchangeRequest {} r.asTokenRequest = .ok ui ∧ p.Storage.SigningKey = .ok key ∧
+      key.signID (exchangeIDClaims now (IssuerFromContext now) r c.IDTokenLifetime c p.Storage ui) = .ok resp.AccessToken := by
+  rw [createTokenExchangeResponse_eq] at h
+  unfold responseSpec at h
+  have h1 : ¬ (Const.IDTokenType = Const.AccessTokenType ∨ Const.IDTokenType = Const.RefreshTokenType) := by decide
+  simp only [hreq, h1, if_true, if_false] at h
+  cases hi : GenTE.CreateIDToken now (IssuerFromContext now) r.asTokenRequest c.IDTokenLifetime "" "" p.Storage c with
+  | error e => simp [hi] at h
+  | ok tok =>
+    simp [hi] at h
+    subst h
+    obtain ⟨ui, key, hu, hk, _, hsg⟩ := c15_exchange_id_token_userinfo_source hte hi
+    exact ⟨rfl, ui, key, hu, hk, hsg⟩
+
+/-- WHAT THE ISSUED ACCESS TOKEN CARRIES (requested type access_token / refresh_token): for a client with JWT access tokens the
+    token is the signature over claims whose subject and audience are the (policy-rewritten) request's and whose private claims -
+    the place where the storage policy puts the actor (`act`) - are exactly the exchange hook's decision for this request; for a
+    client with opaque tokens it seals `id:subject` of the token the storage created for this request -/
+theorem c15_issued_access_token_carries_policy_decision {now : Int} {r : TEReq} {c : OPClient} {p : TEProvider} {resp : ExchangeResp}
+    (hte : p.Storage.is_TokenExchangeStorage = true)
+    (hreq : r.requestedTokenType = Const.AccessTokenType ∨ r.requestedTokenType = Const.RefreshTokenType)
+    (h : GenTE.CreateTokenExchangeResponse now r c p = .ok resp) :
+    ∃ id exp, GenTE.createTokens now r.asTokenRequest p.Storage "" c = .ok (id, resp.RefreshToken, exp) ∧
+      (if p.Storage.ClientAccessTokenType c = TEConst.AccessTokenTypeJWT then
+        ∃ pc key, p.Storage.GetPrivateClaimsFromTokenExchangeRequest r.asTokenRequest = .ok pc ∧ p.Storage.SigningKey = .ok key ∧
+          key.signAT (exchangeJWTClaims now (IssuerFromContext now) r exp id c p.Storage pc) = .ok resp.AccessToken
+       else p.Crypto.Encrypt (id ++ ":" ++ r.subject) = .ok resp.AccessToken) := by
+  rw [createTokenExchangeResponse_eq] at h
+  unfold responseSpec at h
+  simp only [hreq, if_true] at h
+  cases ha : GenTE.CreateAccessToken now r.asTokenRequest (p.Storage.ClientAccessTokenType c) p c "" with
+  | error e => simp [ha] at h
+  | ok t =>
+    obtain ⟨tok, rt, v⟩ := t
+    simp [ha] at h
+    subst h
+    exact c15_access_token_of_exchange hte ha
 
 /-- a requested type the provider cannot issue (jwt, anything else) is an error - never a success answer -/
 theorem c15_unissuable_type_is_error {now : Int} {r : TEReq} {c : OPClient} {p : TEProvider}
     (h : r.requestedTokenType ≠ Const.AccessTokenType ∧ r.requestedTokenType ≠ Const.RefreshTokenType ∧ r.requestedTokenType ≠ Const.IDTokenType) :
     GenTE.CreateTokenExchangeResponse now r c p = .error "ErrInvalidRequest" := by
-  unfold GenTE.CreateTokenExchangeResponse
-  simp [TEReq.GetRequestedTokenType, h.1, h.2.1, h.2.2]
+  rw [createTokenExchangeResponse_eq]
+  unfold responseSpec
+  simp [h.1, h.2.1, h.2.2]
+
+/-! ## both routers -/
+
+/-- hand-readable specification of the Server router's handler entered with an authenticated client: the parameter checks, the
+    capability check, then the same two functions -/
+def handlerSpec (now : Int) (p : TEProvider) (rq : TEIn) (c : OPClient) : TEHttp :=
+  if ¬ paramsOK rq then .error "ErrInvalidRequest"
+  else if p.Storage.is_TokenExchangeStorage = false then .error (Hand.unimplementedGrantError Const.GrantTypeTokenExchange)
+  else match GenTE.CreateTokenExchangeRequest now rq c p with
+    | .error e => .error e
+    | .ok r =>
+      match GenTE.CreateTokenExchangeResponse now r c p with
+      | .error e => .error e
+      | .ok resp => .ok resp
+
+/-- CHARACTERISATION of the regenerated `webServer.tokenExchangeHandler` → `LegacyServer.TokenExchange` →
+    `Provider.GrantTypeTokenExchangeSupported` -/
+theorem tokenExchangeHandler_eq (now : Int) (ws : TEWebServer) (rq : TEIn) (c : OPClient) :
+    GenTE.tokenExchangeHandler now ws { form := .ok rq } c = handlerSpec now ws.server.provider rq c := by
+  unfold GenTE.tokenExchangeHandler GenTE.LegacyTokenExchange GenTE.GrantTypeTokenExchangeSupported handlerSpec paramsOK
+    Hand.teDecodeRequest Hand.teWriteError Hand.teNewClientRequest Hand.teNewResponse
+  simp only [beq_iff_eq, bne_iff_ne, Bool.and_eq_true, Bool.not_eq_true', isSupported_false_iff]
+  go_leaf
+
+/-- the Provider router's chain after the request has been parsed: validation (incl. client authentication), then the response -/
+def providerRouter (now : Int) (rq : TEIn) (id sec : String) (p : TEProvider) : TEHttp :=
+  match GenTE.ValidateTokenExchangeRequest now rq id sec p with
+  | .error e => .error e
+  | .ok (r, c) =>
+    match GenTE.CreateTokenExchangeResponse now r c p with
+    | .error e => .error e
+    | .ok resp => .ok resp
+
+/-- BOTH ROUTERS: for a client that the Provider router's `AuthorizeTokenExchangeClient` authenticates and that is registered for
+    the grant, the Server router's regenerated handler (`webServer.tokenExchangeHandler` → `LegacyServer.TokenExchange`, entered
+    with that client) answers EXACTLY what the Provider router's regenerated chain answers - same success, same error - for every
+    request, provider, storage and library answer. (The two routers duplicate the parameter checks in different orders; every one
+    of them fails with the same error, and both reach the same `CreateTokenExchangeRequest` / `CreateTokenExchangeResponse`.) -/
+theorem c15_routers_agree (now : Int) (rq : TEIn) (id sec : String) (c : OPClient) (p : TEProvider)
+    (hauth : Hand.teAuthorizeClient now id sec p = .ok c) (hgrant : ValidateGrantType now c Const.GrantTypeTokenExchange = true) :
+    GenTE.tokenExchangeHandler now { server := { provider := p } } { form := .ok rq } c = providerRouter now rq id sec p := by
+  rw [tokenExchangeHandler_eq]
+  unfold providerRouter
+  rw [validateTokenExchangeRequest_eq]
+  unfold handlerSpec validateSpec
+  simp only [hauth, hgrant]
+  by_cases hp : paramsOK rq
+  · have h1 : ¬ (rq.SubjectToken = "" ∨ rq.SubjectTokenType = "") := by
+      intro h; rcases h with h | h
+      · exact hp.1 h
+      · exact hp.2.1 h
+    simp only [hp, h1, not_true_eq_false, if_false, Bool.true_eq_false]
+    by_cases hs : p.Storage.is_TokenExchangeStorage = true
+    · simp only [hs, Bool.true_eq_false, if_false]
+      cases GenTE.CreateTokenExchangeRequest now rq c p <;> simp
+    · have hs' : p.Storage.is_TokenExchangeStorage = false := by simpa using hs
+      have : GenTE.CreateTokenExchangeRequest now rq c p = .error (Hand.unimplementedGrantError Const.GrantTypeTokenExchange) := by
+        unfold GenTE.CreateTokenExchangeRequest; simp [hs']
+      simp [hs', this]
+  · by_cases h1 : rq.SubjectToken = "" ∨ rq.SubjectTokenType = "" <;> simp [hp, h1]
+
+/-- what a success of the Server router's handler establishes (the client was authenticated by `withClient`, the C05 slice):
+    supported declared types, and the same `CreateTokenExchangeRequest` / `CreateTokenExchangeResponse` as on the Provider router -/
+theorem c15_legacy_handler_sound {now : Int} {ws : TEWebServer} {rq : TEIn} {c : OPClient} {resp : ExchangeResp}
+    (h : GenTE.tokenExchangeHandler now ws { form := .ok rq } c = .ok resp) :
+    rq.SubjectToken ≠ "" ∧ rq.SubjectTokenType ∈ supported ∧ (rq.ActorTokenType = "" ∨ rq.ActorTokenType ∈ supported) ∧
+    (rq.RequestedTokenType = "" ∨ rq.RequestedTokenType ∈ supported) ∧
+    ∃ r, GenTE.CreateTokenExchangeRequest now rq c ws.server.provider = .ok r ∧ GenTE.CreateTokenExchangeResponse now r c ws.server.provider = .ok resp := by
+  rw [tokenExchangeHandler_eq] at h
+  unfold handlerSpec at h
+  by_cases hp : paramsOK rq
+  · simp only [hp, not_true_eq_false, if_false] at h
+    by_cases hs : ws.server.provider.Storage.is_TokenExchangeStorage = false
+    · simp [hs] at h
+    simp only [hs, if_false] at h
+    cases hr : GenTE.CreateTokenExchangeRequest now rq c ws.server.provider with
+    | error e => simp [hr] at h
+    | ok r =>
+      simp only [hr] at h
+      cases hx : GenTE.CreateTokenExchangeResponse now r c ws.server.provider with
+      | error e => simp [hx] at h
+      | ok resp' =>
+        simp [hx] at h
+        subst h
+        exact ⟨hp.1, hp.2.2.1, hp.2.2.2.2, hp.2.2.2.1, r, rfl, hx⟩
+  · simp [hp] at h
 
 /-! ## finding F-C15b: a JWT access token declared as id_token (type confusion) -/
 section confusion
@@ -365,6 +747,20 @@ example : GenTE.GetTokenIDAndSubjectFromToken 0 exProvider "tp-a" Const.JWTToken
 -- the same token in both roles resolves to the identity of THAT role
 example : GenTE.GetTokenIDAndSubjectFromToken 0 exProvider "tp-b" Const.JWTTokenType false = ("tp-b", "bob-as-subject", [], true) := by decide
 example : GenTE.GetTokenIDAndSubjectFromToken 0 exProvider "tp-b" Const.JWTTokenType true = ("tp-b", "bob-as-actor", [], true) := by decide
+/-- WITNESS for F-C15c (the full-strength reading "an actor token, if given, is of a declared SUPPORTED type" is false of the unchanged
+    code): `actor_token=tp-a` WITHOUT `actor_token_type` - the regenerated chain lets the request through as a delegation for the
+    actor the verifier storage's actor policy named (it was asked with the empty type), and the monitor refuses that success;
+    without the optional verifier storage the same request is refused -/
+theorem c15_actor_without_type_witness :
+    (match GenTE.ValidateTokenExchangeRequest 0 { SubjectToken := "tp-s", SubjectTokenType := Const.JWTTokenType, ActorToken := "tp-a", ActorTokenType := "", RequestedTokenType := Const.AccessTokenType } "te-only" "s" exProvider with
+      | .ok (r, _) => r.exchangeActor == "svc" && r.exchangeActorTokenType == "" | .error _ => false) = true ∧
+    (match GenTE.ValidateTokenExchangeRequest 0 { SubjectToken := "tp-s", SubjectTokenType := Const.JWTTokenType, ActorToken := "tp-a", ActorTokenType := "", RequestedTokenType := Const.AccessTokenType } "te-only" "s" { exProvider with Storage := { exStore with is_TokenExchangeTokensVerifierStorage := false } } with
+      | .ok _ => false | .error e => e == "ErrInvalidRequest") = true ∧
+    judge { base := { issuer := "https://op.example", clients := exProvider.base.store.clients }, capTE := true } 0 { clientID := "te-only", secret := "s" }
+      { subjectType := Const.JWTTokenType, subjectLive := true, subjectSubject := "alice", actorGiven := true, actorType := "", actorLive := true, actorSubject := "svc", requestedType := tAccess }
+      (some { issuedTokenType := tAccess, accessToken := "access", accessLive := true, subject := "alice", policyAsked := true, exchangeSubject := "alice", actor := "svc" })
+      = some "actor-token-not-live" := by decide
+
 -- without the optional interface the policies are never consulted
 example : GenTE.GetTokenIDAndSubjectFromToken 0 { exProvider with Storage := { exStore with is_TokenExchangeTokensVerifierStorage := false } }
     "tp-s" Const.JWTTokenType false = ("", "", [], false) := by decide
@@ -390,7 +786,7 @@ example : (match GenTE.ValidateTokenExchangeRequest 0
     access token yields none -/
 example : (GenTE.CreateTokenExchangeResponse 0 { requestedTokenType := Const.RefreshTokenType, subject := "alice" }
       { id := "te-only", grants := [Const.GrantTypeTokenExchange] } exProvider).toOption.map (fun r => (r.IssuedTokenType, r.RefreshToken, r.AccessToken))
-    = some (Const.RefreshTokenType, "rt1", "at(at1:alice)") := by decide
+    = some (Const.RefreshTokenType, "rt1", "enc(at1:alice)") := by decide
 example : (GenTE.CreateTokenExchangeResponse 0 { requestedTokenType := Const.AccessTokenType, subject := "alice" }
       { id := "web", grants := [Const.GrantTypeTokenExchange, Const.GrantTypeRefreshToken] } exProvider).toOption.map (fun r => (r.IssuedTokenType, r.RefreshToken))
     = some (Const.AccessTokenType, "") := by decide
@@ -400,5 +796,48 @@ example : StorageContract exStore := by
   simp [← h.2.1]
 example : GenTE.CreateTokenExchangeResponse 0 { requestedTokenType := Const.JWTTokenType } {} exProvider = .error "ErrInvalidRequest" :=
   c15_unissuable_type_is_error (by decide)
+
+-- both routers, concretely: the Server router's handler (entered with the authenticated client) and the Provider router's chain hand out the same response
+example : (match GenTE.tokenExchangeHandler 0 { server := { provider := exProvider } }
+      { form := .ok { SubjectToken := "tp-s", SubjectTokenType := Const.JWTTokenType, RequestedTokenType := Const.AccessTokenType } }
+      { id := "te-only", secret := "s", grants := [Const.GrantTypeTokenExchange] } with
+    | .ok r => (r.IssuedTokenType, r.AccessToken) | .error e => (e, "")) = (Const.AccessTokenType, "enc(at1:alice)") := by decide
+example : (match providerRouter 0 { SubjectToken := "tp-s", SubjectTokenType := Const.JWTTokenType, RequestedTokenType := Const.AccessTokenType } "te-only" "s" exProvider with
+    | .ok r => (r.IssuedTokenType, r.AccessToken) | .error e => (e, "")) = (Const.AccessTokenType, "enc(at1:alice)") := by decide
+
+/-- a storage with BOTH optional private-claims capabilities (`TokenExchangeStorage` and `CanGetPrivateClaimsFromRequest`) whose
+    exchange hook decides the actor of an impersonation, and whose clients "jwt…" get JWT access tokens -/
+def exStoreBoth : TEStore :=
+  { exStore with
+    is_CanGetPrivateClaimsFromRequest := true,
+    GetPrivateClaimsFromTokenExchangeRequest := fun a => .ok [("src", "exchange"), ("act.sub", a.req.exchangeSubject)],
+    GetPrivateClaimsFromRequest := fun _ _ => .ok [("src", "request")],
+    GetPrivateClaimsFromScopes := fun _ _ _ => .ok [("src", "scopes")],
+    ClientAccessTokenType := fun c => if Go.hasPrefix c.id "jwt" then TEConst.AccessTokenTypeJWT else 0 }
+
+-- the JWT access token of an impersonation carries the actor the EXCHANGE hook decided, although the storage could also answer "from the request"
+example : (GenTE.CreateTokenExchangeResponse 0 { requestedTokenType := Const.AccessTokenType, subject := "bob", exchangeSubject := "alice" }
+      { id := "jwt-te", grants := [Const.GrantTypeTokenExchange] } { exProvider with Storage := exStoreBoth }).toOption.map (fun r => (r.IssuedTokenType, r.AccessToken))
+    = some (Const.AccessTokenType, "jwt(at1:bob:src=exchange;act.sub=alice)") := by decide
+-- the same storage, a client with opaque tokens: the sealed `id:subject`
+example : (GenTE.CreateTokenExchangeResponse 0 { requestedTokenType := Const.AccessTokenType, subject := "bob", exchangeSubject := "alice" }
+      { id := "te-only", grants := [Const.GrantTypeTokenExchange] } { exProvider with Storage := exStoreBoth }).toOption.map (fun r => r.AccessToken)
+    = some "enc(at1:bob)" := by decide
+-- a request that is NOT a token exchange goes to the optional request hook (the else branch is live code)
+example : (GenTE.CreateJWT 0 "" { req := { subject := "bob" } } 0 "at1" { id := "jwt-te" } exStoreBoth).toOption = some "jwt(at1:bob:src=request)" := by decide
+example : (GenTE.CreateJWT 0 "" { req := { subject := "bob" } } 0 "at1" { id := "jwt-te" } { exStoreBoth with is_CanGetPrivateClaimsFromRequest := false }).toOption
+    = some "jwt(at1:bob:src=scopes)" := by decide
+example : MintContract { exProvider with Storage := exStoreBoth } := by
+  refine ⟨fun s t h => ?_, fun k c t hk h => ?_, fun k c t hk h => ?_⟩
+  · simp [exProvider] at h
+    intro he; rw [he] at h; have := congrArg String.length h; simp at this
+  · simp [exStoreBoth, exStore] at hk
+    subst hk
+    simp at h
+    intro he; rw [he] at h; have := congrArg String.length h; simp at this
+  · simp [exStoreBoth, exStore] at hk
+    subst hk
+    simp at h
+    intro he; rw [he] at h; have := congrArg String.length h; simp at this
 
 end C15
